@@ -28,6 +28,8 @@ def run(rep):
         E.walk(v, lambda x: stars.append(x) if x[0] == 'star' and x[1][0] == 'f' and x[1][2] == 'types' and x[1][1][0] == 'param' else None)
         for st in stars:
             ts = E.find_templates(st[3], lambda t: 'pub struct #' in E.tmpl_text(t) and 'derive ( #(' in E.tmpl_text(t))
+            # several struct templates (e.g. an early return for structs that cannot carry assertions): the one that can produce assertions
+            ts.sort(key=lambda t: 0 if any(E.find_templates(h_, lambda x: 'assert !' in E.tmpl_text(x)) for h_ in E.holes(t).values()) else 1)
             if ts:
                 hits.append((q, st, ts[0]))
     rep.floor('function emitting struct items from module.types', len(hits), 1)
